@@ -180,7 +180,14 @@ class ProjectorModel:
                 t = s.targets[0]
                 d = dotted(t)
                 if isinstance(t, ast.Name):
-                    st["locals"][t.id] = s.value
+                    # locals are evaluated when assigned (a later rebinding may refer to the old value)
+                    try:
+                        st["locals"][t.id] = ("op", self._op_value(s.value, st, depth))
+                    except AnalysisError:
+                        try:
+                            st["locals"][t.id] = ("arr", self._array(s.value, st))
+                        except AnalysisError:
+                            st["locals"][t.id] = ("ast", s.value)
                     continue
                 if d and d.startswith("self.") and d[5:] in CACHE_OP and d.count(".") == 1:
                     st["caches"][d[5:]] = self._op_value(s.value, st, depth)
@@ -216,14 +223,23 @@ class ProjectorModel:
 
     def _array(self, e, st):
         def resolve(n):
-            return st["locals"].get(n.id)
+            v = st["locals"].get(n.id)
+            return v[1] if v is not None and v[0] == "ast" else None
         env = dict(st["arrays"])
         # IfExp on the hermitian flag inside array expressions
         if isinstance(e, ast.IfExp) and norm(e.test) in ("self._hermitian", "not self._hermitian"):
             pick = st["hermitian"] if norm(e.test) == "self._hermitian" else not st["hermitian"]
             return self._array(e.body if pick else e.orelse, st)
         if isinstance(e, ast.Name) and e.id in st["locals"]:
-            return self._array(st["locals"][e.id], st)
+            kind, v = st["locals"][e.id]
+            if kind == "arr":
+                return v
+            if kind == "ast":
+                return self._array(v, st)
+            raise AnalysisError(RULE, f"operator-valued local `{e.id}` used as an array")
+        for k_, (kind, v) in st["locals"].items():
+            if kind == "arr":
+                env[k_] = v
         return ld.Den(env, RULE, resolve).ev(e)
 
     def _op_value(self, e, st, depth):
@@ -234,7 +250,12 @@ class ProjectorModel:
             if e.id == "self":
                 return st["self"]
             if e.id in st["locals"]:
-                return self._op_value(st["locals"][e.id], st, depth)
+                kind, v = st["locals"][e.id]
+                if kind == "op":
+                    return v
+                if kind == "ast":
+                    return self._op_value(v, st, depth)
+                raise AnalysisError(RULE, f"array-valued local `{e.id}` used as an operator")
         if isinstance(e, ast.IfExp) and norm(e.test) in ("self._hermitian", "not self._hermitian"):
             pick = st["hermitian"] if norm(e.test) == "self._hermitian" else not st["hermitian"]
             return self._op_value(e.body if pick else e.orelse, st, depth)
@@ -293,7 +314,14 @@ def rule_projector(rep: Report, repo: Repo):
     init = m.init
     vecs_p, left_p = m.init_params
     # -- constructor wiring ----------------------------------------------------------
-    a = m.init_assign
+    from .resolve import env_at as _env_at, resolved as _resolved
+    a = {}
+    for n_ in own_nodes(init):
+        if isinstance(n_, ast.Assign):
+            for t_ in n_.targets:
+                d_ = dotted(t_)
+                if d_ and d_.startswith("self."):
+                    a[d_[5:]] = _resolved(n_.value, _env_at(n_, init))
     rep.check(norm(a.get("_vecs", ast.Constant(None))) == vecs_p, RULE,
               f"{CLS}.__init__ stores R = `{vecs_p}`", "", loc(init))
     herm = a.get("_hermitian")
@@ -309,8 +337,9 @@ def rule_projector(rep: Report, repo: Repo):
     rep.check(ok, RULE, f"{CLS}.__init__ `_hermitian` holds only when L equals R (or is omitted)",
               norm(herm) if herm is not None else "missing", loc(init))
     lv = a.get("_left_vecs")
-    ok = lv is not None and norm(lv) in (f"{vecs_p} if self._hermitian else {left_p}",
-                                         f"{left_p} if not self._hermitian else {vecs_p}")
+    hflag = ("self._hermitian", norm(a["_hermitian"])) if "_hermitian" in a else ("self._hermitian",)
+    ok = lv is not None and any(norm(lv) in (f"{vecs_p} if {h_} else {left_p}", f"{left_p} if not {h_} else {vecs_p}",
+                                             f"{left_p} if not ({h_}) else {vecs_p}") for h_ in hflag)
     rep.check(ok, RULE, f"{CLS}.__init__ stores L = `{left_p}` (R when Hermitian)", norm(lv) if lv is not None else "missing", loc(init))
     # shape / dtype: assigned directly or handed to LinearOperator.__init__(dtype, shape)
     sup = {}
@@ -318,10 +347,11 @@ def rule_projector(rep: Report, repo: Repo):
         if isinstance(n, ast.Call) and isinstance(n.func, ast.Attribute) and n.func.attr == "__init__" \
                 and norm(n.func.value) in ("super()", "LinearOperator", f"super({m.cls.name}, self)"):
             pos = n.args[1:] if norm(n.func.value) == "LinearOperator" else n.args
+            env_c = _env_at(n, init)
             for name, v in zip(("dtype", "shape"), pos):
-                sup[name] = v
+                sup[name] = _resolved(v, env_c)
             for k in n.keywords:
-                sup[k.arg] = k.value
+                sup[k.arg] = _resolved(k.value, env_c)
     shp = a.get("shape", sup.get("shape"))
     rep.check(shp is not None and norm(shp) == f"({vecs_p}.shape[0], {vecs_p}.shape[0])", RULE,
               f"{CLS}.__init__ shape is (n, n) with n = number of rows of R", norm(shp) if shp is not None else "missing", loc(init))
